@@ -13,7 +13,7 @@ from .model import Src, g_char, g_text
 from .refs import DIALECTS
 
 SOUP_ALPHABET = ["|", "\\", "n", "@", "#", ":", '"', "`", "<", ">", " ", "\t", "\r", "\n", "\n", "a", "*", "-", "{", "}", "%", "'", "$", "(", ")", "[", "]"]
-DECOYS = ["# language: es-419", "#language: fr2", "# language: [fr]", "#language:en^", "# language: `en`", "# language: français", "#language: en_au", "#language: en-au",
+DECOYS = ["@ smoke", "@a @\tb", "@ a b", "@a@ b", "# language: es-419", "#language: fr2", "# language: [fr]", "#language:en^", "# language: `en`", "# language: français", "#language: en_au", "#language: en-au",
           "{\"json\": {\"a\": 1}}", "Given {int} cukes", "{0} {name} {", "} %s %d %(k)s", "100% done", "it's", "@a b", "@", "@t #c", "#language: xx", "# language: fr", "#language:en", "| a |", "| a | b |", "|", "| \\", "| \\| | \\n |", '"""', "```",
           '"""json', "``` x", "Examples:", "Scenario: s", "Scenario Outline: <a>", "Feature: f", "Rule: r", "Background:", "Given x", "And <a>", "* y",
           "When ", "Then <b> z", "", "  ", "text", "\t", "\r", "<a>", "|(|", "| a(b | $1 |", "Given <a(b> <$1> <[>", "@x #c", " ", "\x0b", "\x1c", "\x85",
@@ -184,6 +184,11 @@ def big_documents(thorough=False):
         out.append(("bad-unexpected-indent-%d" % n, "Feature: f\n Scenario: s\n  Given x\n" + " " * n + "Examples:\n" + " " * n + "| a |\n" + "\t" * n + "nonsense\n"))
         out.append(("bad-many-errors-%d" % n, "Feature: f\n" + "".join(" Scenario: s%d\n  Given x\n  bad line %d\n" % (i, i) for i in range(n))))
         out.append(("bad-eof-in-docstring-%d" % n, "Feature: f\n Scenario: s\n  Given d\n   \"\"\"\n" + "x\n" * n))
+    for n in [1200, 3500] + ([20000] if thorough else []):
+        # long unbroken runs (recursion depth / stack use must not depend on the length of a run)
+        out.append(("and-run-%d" % n, "Feature: f\n Background:\n  Given b\n" + "  And bb\n" * (n // 2) + " Scenario Outline: s\n  But first\n" + "  And <a>\n" * n + "  Examples:\n   | a |\n   | 1 |\n"))
+        out.append(("conjunction-only-%d" % n, "Feature: f\n Scenario: s\n" + "  And y\n" * n))
+        out.append(("blank-run-%d" % n, "Feature: f\n" + "\n" * n + " Scenario: s\n" + "# c\n" * n + "  Given x\n"))
     for n in [65535, 65536, 65537, (1 << 20) - 1, 1 << 20, (1 << 20) + 1] + ([(1 << 21) + 3] if thorough else []):
         long = "x" * n
         out.append(("long-line-description-%d" % n, "Feature: f\n " + long + "\n Scenario: s\n  Given y\n"))
